@@ -71,6 +71,10 @@ func (m *memDag) Add(ctx context.Context, n ipld.Node) error {
 		m.mu.Unlock()
 		time.Sleep(2500 * time.Millisecond)
 		m.mu.Lock()
+	case "brief":
+		m.mu.Unlock()
+		time.Sleep(120 * time.Millisecond)
+		m.mu.Lock()
 	}
 	if _, ok := m.blocks[n.Cid()]; !ok {
 		m.order = append(m.order, n.Cid())
@@ -206,6 +210,22 @@ type memAPI struct {
 
 func (a *memAPI) Dag() coreiface.APIDagService { return a.d }
 func (a *memAPI) Pin() coreiface.PinAPI        { return &memPin{d: a.d} }
+func (a *memAPI) Block() coreiface.BlockAPI    { return &memBlock{d: a.d} }
+
+// memBlock: go-ipfs-log has no business removing blocks; a store that honours Block().Rm lets the
+// checks see it if it does (the removal is recorded like Dag().Remove)
+type memBlock struct {
+	coreiface.BlockAPI
+	d *memDag
+}
+
+func (b *memBlock) Rm(ctx context.Context, pth path.Path, _ ...options.BlockRmOption) error {
+	ip, err := path.NewImmutablePath(pth)
+	if err != nil {
+		return err
+	}
+	return b.d.Remove(ctx, ip.RootCid())
+}
 
 // memPin: pinning a block that is in the store succeeds, pinning an absent block fails (as a node
 // that cannot fetch it would); everything else is unused by go-ipfs-log
